@@ -317,8 +317,16 @@ def splitTicks (s : Str) : Option (Str × Str × Str) :=
     | none => none
     | some (b, c) => some (a, b, c)
 
+/-- `try: … collapse_rfc2231_value(v) except ValueError: … unquote(v[2])` of the fixed `_parse_header` -/
+def catchValueError (r : Except Err Str) (fallback : Str) : Except Err Str :=
+  match r with
+  | .error (.uncaught _) => .ok fallback
+  | r => r
+
 /-- the value of one RFC 2231 parameter (decode_params + the fixed `_parse_header` loop +
-    `collapse_rfc2231_value`) -/
+    `collapse_rfc2231_value`).  Since the `fix:` commit for the RFC 2231 finding the call of `collapse_rfc2231_value`
+    sits in `try … except ValueError` and the handler answers like `collapse_rfc2231_value` does for an unknown
+    codec: `unquote(text)` (the only modelled raising charset is one with a NUL in its name). -/
 def rfc2231Value (conts : List Seg) : Except Err Str :=
   let hasNone := conts.any (fun c => c.1.isNone)
   let hasNum := conts.any (fun c => c.1.isSome)
@@ -336,7 +344,8 @@ def rfc2231Value (conts : List Seg) : Except Err Str :=
       | some (charset, _lang, rest) =>
         let text := emailUnquote ([34] ++ rest ++ [34])
         if charset.any (fun c => 55296 ≤ c && c ≤ 57343) then .error .unmodelled
-        else decodeCharset (classifyCharset charset) (rawUnicodeEscape text)
+        else
+          catchValueError (decodeCharset (classifyCharset charset) (rawUnicodeEscape text)) (emailUnquote text)
     else .ok (emailUnquote ([34] ++ value ++ [34]))
 
 /-- ASCII `str.lower()`; the harness keeps non-ASCII cased letters out of parameter names -/
@@ -370,21 +379,34 @@ def groupParams : List (Str × Str) → Grouped → Except Err Grouped
         groupParams rest { g with ext := dset base ((dget base g.ext).getD [] ++ [seg]) g.ext }
     | none => groupParams rest { g with plain := g.plain ++ [(name, v)] }
 
-/-- `_parse_header` (after the `fix:` commit for D22): key and the parameter dict in insertion order -/
+/-- what the fixed `_parse_header` returns when `email.utils.decode_params` raises (`except (TypeError, ValueError):
+    decoded_params = list(params)`): every parameter under the name it was written with (`x*`, `x*0` included), the value
+    `unquote`d once by `collapse_rfc2231_value`, no RFC 2231 processing at all -/
+def literalParams (raw : List (Str × Str)) : List (Str × Str) :=
+  raw.foldl (fun d (n, v) => dset n (emailUnquote v) d) []
+
+/-- `decode_params` raises TypeError: `continuations.sort()` compares `(None, …)` with `(int, …)` when one parameter is given
+    both without and with an index (`x*=…; x*0=…`) -/
+def mixedConts (ext : List (Str × List Seg)) : Bool :=
+  ext.any (fun (_, conts) => conts.any (fun c => c.1.isNone) && conts.any (fun c => c.1.isSome))
+
+/-- `_parse_header` (after the `fix:` commits for D22 and for the RFC 2231 exceptions): key and the parameter dict in
+    insertion order.  `decode_params` raising (ValueError from `int()` in its first loop, TypeError from the sort) makes the
+    function fall back to `literalParams`. -/
 def parseHeader (line : Str) : Except Err (Str × List (Str × Str)) :=
   match parseparam line with
-  | [] => .error (.uncaught "StopIteration")     -- unreachable: `segs` never returns []
+  | [] => .error (.uncaught "StopIteration")     -- unreachable: `segs` never returns [] (`segs_ne_nil`)
   | key :: ps =>
     match groupParams (rawParams ps) {} with
-    | .error e => .error e
+    | .error _ => .ok (key, literalParams (rawParams ps))          -- `except (TypeError, ValueError)`: int() digit limit
     | .ok g =>
       -- plain parameters: '"%s"' % quote(v), then collapse_rfc2231_value = unquote
       let d0 : List (Str × Str) :=
         g.plain.foldl (fun d (n, v) => dset n (emailUnquote ([34] ++ emailQuote v ++ [34])) d) []
       -- decode_params sorts every continuation list (TypeError on a None/int mix) before `_parse_header`
       -- decodes any charset
-      if g.ext.any (fun (_, conts) => conts.any (fun c => c.1.isNone) && conts.any (fun c => c.1.isSome)) then
-        .error (.uncaught "TypeError")
+      if mixedConts g.ext then
+        .ok (key, literalParams (rawParams ps))                    -- `except (TypeError, ValueError)`: the sort
       else
         match g.ext.foldlM (fun d (n, conts) => (rfc2231Value conts).map (fun v => dset n v d)) d0 with
         | .error e => .error e
